@@ -1034,10 +1034,51 @@ class VCGen:
             h.mem[rn] = new
         return h, av, regs
 
+    def _is_step_of(self, stmt, var):
+        """stmt is `var++`, `++var`, `var += 1` or `var = var + 1`"""
+        try:
+            s = self.strip(stmt)
+            def isvar(x):
+                x = self.strip(x)
+                return x.get('kind') == 'DeclRefExpr' and (x.get('referencedDecl', {}).get('name') == var or x.get('ref') == var)
+            def isone(x):
+                x = self.strip(x)
+                return x.get('kind') == 'IntegerLiteral' and str(x.get('value')) == '1'
+            if s.get('kind') == 'UnaryOperator' and s.get('opcode') == '++':
+                return isvar(s['inner'][0])
+            if s.get('kind') == 'CompoundAssignOperator' and s.get('opcode') == '+=':
+                return isvar(s['inner'][0]) and isone(s['inner'][1])
+            if s.get('kind') == 'BinaryOperator' and s.get('opcode') == '=' and isvar(s['inner'][0]):
+                r = self.strip(s['inner'][1])
+                return r.get('kind') == 'BinaryOperator' and r.get('opcode') == '+' and ((isvar(r['inner'][0]) and isone(r['inner'][1])) or (isvar(r['inner'][1]) and isone(r['inner'][0])))
+        except Exception:
+            pass
+        return False
+
+    def _has_continue(self, n):
+        if isinstance(n, dict):
+            if n.get('kind') == 'ContinueStmt':
+                return True
+            if n.get('kind') in ('ForStmt', 'WhileStmt', 'DoStmt'):
+                return False          # a continue in an inner loop belongs to that loop
+            return any(self._has_continue(x) for x in n.get('inner', []))
+        return False
+
     def loop(self, st, n, cond, inc, body):
         ordinal = self.loop_ordinals[id(n)]          # source order (stable under unrolling of enclosing loops)
         spec = self.contract.loops.get(ordinal)
         line = n.get('line')
+        # The sidecar was written against a `for` or a `while` loop (recorded in contracts/locals.json); intermediate assertions (hints) sit
+        # "before the step of the induction variable".  An equivalent rewriting for <-> while (step as last statement of the body, no `continue`)
+        # is brought back to the recorded shape, so that the hints keep their meaning.
+        rec = (getattr(self, 'loopkinds', None) or {}).get(self.fname.split('#')[0])
+        if spec is not None and spec.var and rec and ordinal < len(rec) and rec[ordinal] != n.get('kind'):
+            b = body if isinstance(body, dict) else None
+            if rec[ordinal] == 'ForStmt' and n.get('kind') == 'WhileStmt' and inc is None and b and b.get('kind') == 'CompoundStmt' and b.get('inner') \
+                    and self._is_step_of(b['inner'][-1], spec.var) and not self._has_continue(dict(kind='CompoundStmt', inner=b['inner'][:-1])):
+                inc = b['inner'][-1]; body = dict(b, inner=b['inner'][:-1])
+            elif rec[ordinal] == 'WhileStmt' and n.get('kind') == 'ForStmt' and inc is not None and self._is_step_of(inc, spec.var) and not self._has_continue(b):
+                body = dict(kind='CompoundStmt', inner=(b['inner'] if b and b.get('kind') == 'CompoundStmt' else [b]) + [inc]); inc = None
         if spec is None or spec.unroll is not None or not spec.invariant:
             return self.unroll(st, n, cond, inc, body, spec.unroll if spec else None)
         # drift anchor: induction variable named in the sidecar must be assigned in the loop
